@@ -57,9 +57,16 @@ inductive Prog where
   | err (e : Nat)             -- error(e)
   | pcall (p : Prog)          -- pcall(function() p end)
   | call (p : Prog)           -- (function() p end)()
+  | retCall (p : Prog)        -- return (function() p end)()   -- a call in tail position
   | yield                     -- coroutine.yield(): the coroutine is suspended here; it is either resumed
                               -- (nothing observable) or closed with coroutine.close (parameter `kill`)
   deriving DecidableEq, Repr, Inhabited
+
+/-- The generic `for … in f, s, ctl, closing do p end` run for `n` iterations: the manual (§3.3.5) says the
+    fourth value "behaves like a to-be-closed variable", closed when the loop ends in any way.  So it is the
+    block `do local c <close> = closing; <loop n p> end`.  (Seen from inside `p`, a goto index counts this
+    implicit block as one more level.) -/
+def Prog.forin (v : TV) (n : Nat) (p : Prog) : Prog := .block (.seq (.tbc v) (.loop n p))
 
 /-- how control leaves a piece of code -/
 inductive Exit where
@@ -107,6 +114,11 @@ def Exit.leaveFunction : Exit → Exit
   | .err e => .err e
   | .kill e => .kill e
   | _ => .normal
+
+/-- `return f()`: once the call has come back normally the function returns -/
+def Exit.thenReturn : Exit → Exit
+  | .normal => .ret
+  | x => x
 
 structure Res where
   exit : Exit
@@ -162,6 +174,11 @@ def exec (h : Handlers) (kill : Bool) : Prog → List TV → Res
   | .call p, pend =>
     let c := closeBlock h (exec h kill p [])
     ⟨c.1.leaveFunction, pend, c.2⟩
+  | .retCall p, pend =>
+    -- "a pending close disables the tail call so the handler runs after the called function returns":
+    -- the call completes first, only then does the `return` close the pending values of this function
+    let c := closeBlock h (exec h kill p [])
+    ⟨c.1.leaveFunction.thenReturn, pend, c.2⟩
   | .yield, pend => ⟨if kill then .kill none else .normal, pend, []⟩
 
 /-- the events of running the chunk `p` under pcall -/
@@ -191,6 +208,7 @@ def wf : Prog → (depth : Nat) → (inLoop : Bool) → Bool
   | .err _, _, _ => true
   | .pcall p, _, _ => wf p 0 false
   | .call p, _, _ => wf p 0 false
+  | .retCall p, _, _ => wf p 0 false
   | .yield, _, _ => true
 
 /-- no `coroutine.yield()` anywhere in the program -/
@@ -201,15 +219,7 @@ def noYield : Prog → Bool
   | .loop _ p => noYield p
   | .pcall p => noYield p
   | .call p => noYield p
-  | _ => true
-
-/-- no `coroutine.yield()` lexically inside a protected call -/
-def noYieldInPcall : Prog → Bool
-  | .seq a b => noYieldInPcall a && noYieldInPcall b
-  | .block p => noYieldInPcall p
-  | .loop _ p => noYieldInPcall p
-  | .pcall p => noYield p
-  | .call p => noYieldInPcall p
+  | .retCall p => noYield p
   | _ => true
 
 end GoluaVerif.Spec.Tbc
